@@ -97,7 +97,8 @@ def lines_for(events, typ):
     for ev in events:
         k, a = ev["kind"], ev["args"]
         st = "%d %d %d" % ev["state"]
-        e = ("P " + enc(ev["pieces"]) if ev["npieces"] else "-") + " " + st
+        # (a callback that appends only EMPTY pieces -- handle_data("") after `<img//` -- emits nothing observable: the output is the join of the pieces)
+        e = ("P " + enc(ev["pieces"]) if ev["pieces"] != "" else "-") + " " + st
         if k == "stag":
             tag, attrs = a
             if not ascii_ok(tag) or any(not ascii_ok(x) for x, _ in attrs) or any(x.lower() in ("rel", "type") and not ascii_ok(y) for x, y in attrs):
